@@ -6,6 +6,7 @@ from sa import terms as T
 from sa.core import AnalysisError
 from sa.symexec import Executor
 from sa.terms import tag, C
+from sa.rules.common import guard_literals
 
 CHUNK = 'ampycloud.data.CeiloChunk'
 SELF = ('p', 'self')
@@ -220,20 +221,40 @@ def later_facts_protected(ctx, rule='C14-T2'):
                     killed.setdefault(f, e)
         # refusals present in this method
         refusals = set()
+        conditional = {}
         for e in s.events:
             if e.kind == 'raise' and e.guard != T.FALSE:
-                for lit, table in _typestate_literals(e.guard):
+                ts = list(_typestate_literals(e.guard))
+                for lit, table in ts:
                     # positive existence: the literal is  not (X is None)
                     if tag(lit) == 'not':
-                        refusals.add(table)
+                        # the refusal depends on the existence of the later product and on nothing the data decide: a
+                        # further condition on counts / values (`and self.n_layers != n_ind`) lets the call through on
+                        # some data and the later product is overwritten after all
+                        pure = [x for x, _ in ts if (tag(x) == 'not' and tag(x[1]) == 'cmp' and x[1][1] in ('is', 'in')) or
+                                (tag(x) == 'cmp' and x[1] in ('in', 'is'))]
+                        extra = [l for l in guard_literals(e.guard) if l not in pure
+                                 and T.contains(l, lambda x: tag(x) in ('col', 'mask', 'propget') or
+                                                (tag(x) == 'attr' and x[2] in ('_data', '_slices', '_groups', '_layers')))
+                                 and not T.contains(l, lambda x: tag(x) in ('lv', 'lphi'))
+                                 and not (tag(l) == 'cmp' and l[1] in ('lt', 'le', 'ne') and C(0) in (l[2], l[3]))
+                                 and not (tag(l[1] if tag(l) == 'not' else l) == 'cmp' and (l[1] if tag(l) == 'not' else l)[1] == 'is'
+                                          and T.NONE in (l[1] if tag(l) == 'not' else l)[2:4])]
+                        if extra:
+                            conditional.setdefault(table, (e, extra[0]))
+                        else:
+                            refusals.add(table)
         for f, e in sorted(killed.items()):
             need = EXISTS_TABLE[f]
             names = {'I': "the slices' isolation status (set by find_groups)",
                      'N': "the groups' component count (set by find_layers)",
                      'G': 'the grouping', 'L': 'the layering', 'S': 'the slicing'}
+            why = ''
+            if need not in refusals and need in conditional:
+                why = f' - the refusal at {conditional[need][0].loc()} also requires {T.show(conditional[need][1], maxlen=100)}'
             ctx.check(need in refusals, rule, e.func.qname, e.node, e.loc(),
                       f'{label} overwrites {names[f]} without refusing when it exists '
-                      f'(no raise guarded by self.{need} is not None): the call silently discards a '
+                      f'(no raise guarded by self.{need} is not None alone{why}): the call silently discards a '
                       'later stage\'s result instead of raising or leaving it intact',
                       facts={'entry': label, 'fact': f, 'write': e.where()},
                       instance=f'{label} kills {f}')
